@@ -67,20 +67,28 @@ Proof.
       * inv_bind E. grows_emit.
 Qed.
 
+Lemma op_shares_grows priv o i olds news out out' sv :
+  op_shares priv o i olds news out = Ok (out', sv) -> grows out out'.
+Proof.
+  unfold op_shares. intros H. destruct o; try (eapply share_vec_grows; exact H).
+  inv_bind H. inv_bind H. destruct x0 as [o1 s]. inv_bind H. inversion H; subst.
+  exact (proj1 (emit_grows _ _ _ _ _ _ E0)).
+Qed.
+
 Lemma apply_op_grows priv n o news olds out out' id :
   apply_op priv n o news olds out = Ok (out', id) -> grows out out' /\ zlen out <= id < zlen out'.
 Proof.
   unfold apply_op. intros H.
   assert (G : forall out out' id,
              (let* (out1, result_shares) :=
-                mapS (fun i out => let* (out', share) := share_vec priv i olds news out in emit o share [] out')
+                mapS (fun i out => let* (out', share) := op_shares priv o i olds news out in emit o share [] out')
                      parties out in
               emit OCreateTuple result_shares [] out1) = Ok (out', id) ->
              grows out out' /\ zlen out <= id < zlen out').
   { clear. intros out out' id H. inv_bind H. destruct x as [out1 rs].
     assert (G1 : grows out out1).
     { eapply mapS_grows; [|exact E]. intros a o1 o1' y _ Hf. inv_bind Hf. destruct x as [o2 sh].
-      eapply grows_trans; [eapply share_vec_grows; eauto | grows_emit]. }
+      eapply grows_trans; [eapply op_shares_grows; eauto | grows_emit]. }
     destruct (emit_grows _ _ _ _ _ _ H) as (G2 & -> & L). pose proof (grows_zlen _ _ G1).
     split; [eapply grows_trans; eauto | lia]. }
   destruct (negb (mem n priv)).
@@ -92,7 +100,7 @@ Qed.
 Lemma generate_zero_shares_grows t : forall keys out out' zs,
   generate_zero_shares t keys out = Ok (out', zs) -> grows out out'.
 Proof.
-  induction t as [s|sh s|n t IH|ts IH|fs IH] using ty_ind'; intros keys out out' zs H; cbn [generate_zero_shares] in H; try discriminate.
+  induction t as [s|sh s|n t IH|ts IH|fs IH] using ty_ind'; intros keys out out' zs H; cbn [generate_zero_shares] in H.
   - inv_bind H. destruct x as [out1 rs]. eapply grows_trans.
     + eapply mapS_grows; [|exact E]. intros; grows_emit.
     + eapply mapS_grows; [|exact H]. intros a o o' y _ Hf. inv_bind Hf. inv_bind Hf. grows_emit.
@@ -100,10 +108,22 @@ Proof.
     + eapply mapS_grows; [|exact E]. intros; grows_emit.
     + eapply mapS_grows; [|exact H]. intros a o o' y _ Hf. inv_bind Hf. inv_bind Hf. grows_emit.
   - inv_bind H. destruct x as [out1 subs]. eapply grows_trans.
+    + clear H. revert out out1 subs E. induction (Z.to_nat n) as [|k IHk]; intros out out1 subs E.
+      * inversion E; subst. apply grows_refl.
+      * inv_bind E. destruct x as [o' s]. inv_bind E. destruct x as [o'' ss]. inversion E; subst.
+        eapply grows_trans; [eapply IH; eauto | eapply IHk; eauto].
+    + eapply mapS_grows; [|exact H]. intros a o o' y _ Hf. inv_bind Hf. grows_emit.
+  - inv_bind H. destruct x as [out1 subs]. eapply grows_trans.
     + clear H. revert out out1 subs E. induction IH as [|t ts Ht _ IHts]; intros out out1 subs E.
       * inversion E; subst. apply grows_refl.
       * inv_bind E. destruct x as [o' s]. inv_bind E. destruct x as [o'' ss]. inversion E; subst.
         eapply grows_trans; [eapply Ht; eauto | eapply IHts; eauto].
+    + eapply mapS_grows; [|exact H]. intros a o o' y _ Hf. inv_bind Hf. grows_emit.
+  - inv_bind H. destruct x as [out1 subs]. eapply grows_trans.
+    + clear H. revert out out1 subs E. induction IH as [|f fs Hf _ IHfs]; intros out out1 subs E.
+      * inversion E; subst. apply grows_refl.
+      * inv_bind E. destruct x as [o' s]. inv_bind E. destruct x as [o'' ss]. inversion E; subst.
+        eapply grows_trans; [eapply Hf; eauto | eapply IHfs; eauto].
     + eapply mapS_grows; [|exact H]. intros a o o' y _ Hf. inv_bind Hf. grows_emit.
 Qed.
 
@@ -130,9 +150,18 @@ Qed.
 Lemma sum_shares_grows t : forall shares out out' r,
   sum_shares t shares out = Ok (out', r) -> grows out out'.
 Proof.
-  induction t as [s|sh s|n t IH|ts IH|fs IH] using ty_ind'; intros shares out out' r H; cbn [sum_shares] in H; try discriminate.
+  induction t as [s|sh s|n t IH|ts IH|fs IH] using ty_ind'; intros shares out out' r H; cbn [sum_shares] in H.
   - destruct shares as [|s0 rest]; [discriminate|]. eapply fold_add_grows; eauto.
   - destruct shares as [|s0 rest]; [discriminate|]. eapply fold_add_grows; eauto.
+  - inv_bind H. destruct x as [out1 rv]. eapply grows_trans; [|grows_emit].
+    clear H. revert out out1 rv E. generalize 0 as i.
+    induction (Z.to_nat n) as [|k IHk]; intros i out out1 rv E.
+    + inversion E; subst. apply grows_refl.
+    + inv_bind E. destruct x as [o0 inode]. inv_bind E. destruct x as [o1 subs]. inv_bind E. destruct x as [o2 r2].
+      inv_bind E. destruct x as [o3 rest]. inversion E; subst.
+      eapply grows_trans; [exact (proj1 (emit_grows _ _ _ _ _ _ E0))|].
+      eapply grows_trans; [eapply mapS_grows; [|exact E1]; intros; grows_emit|].
+      eapply grows_trans; [eapply IH; eauto | eapply IHk; eauto].
   - inv_bind H. destruct x as [out1 rv]. eapply grows_trans; [|grows_emit].
     clear H. revert out out1 rv E. generalize 0 as i.
     induction IH as [|t ts Ht _ IHts]; intros i out out1 rv E.
@@ -141,6 +170,14 @@ Proof.
       inversion E; subst.
       eapply grows_trans; [eapply mapS_grows; [|exact E0]; intros; grows_emit|].
       eapply grows_trans; [eapply Ht; eauto | eapply IHts; eauto].
+  - inv_bind H. destruct x as [out1 rv]. eapply grows_trans; [|grows_emit].
+    clear H. revert out out1 rv E.
+    induction IH as [|f fs Hf _ IHfs]; intros out out1 rv E.
+    + inversion E; subst. apply grows_refl.
+    + inv_bind E. destruct x as [o1 subs]. inv_bind E. destruct x as [o2 r2]. inv_bind E. destruct x as [o3 rest].
+      inversion E; subst.
+      eapply grows_trans; [eapply mapS_grows; [|exact E0]; intros; grows_emit|].
+      eapply grows_trans; [eapply Hf; eauto | eapply IHfs; eauto].
 Qed.
 
 Lemma reshare_grows s k out out' id :
@@ -166,18 +203,14 @@ Lemma compile_node_static priv resh keys i nd omap out out' nn :
 Proof.
   unfold compile_node. intros H. inv_bind H. destruct x as [out1 n1].
   assert (G1 : grows out out1 /\ zlen out <= n1 < zlen out1).
-  { clear H. destruct (n_op nd); try discriminate;
-      try (eapply apply_op_grows; exact E);
-      try (inv_bind E; inv_bind E; inv_bind E; inv_bind E;
-           match goal with H : emit_gadget _ _ _ = Ok _ |- _ =>
-             destruct (emit_gadget_grows _ _ _ _ _ H) as (G & -> & L); split; [exact G | lia] end);
-      try (destruct (emit_grows _ _ _ _ _ _ E) as (G & -> & L); split; [exact G | lia]);
-      try (inv_bind E; inv_bind E; eapply apply_op_grows; exact E);
-      try (inv_bind E; eapply apply_op_grows; exact E).
-    all: inv_bind E; inv_bind E; inv_bind E; inv_bind E; inv_bind E; inv_bind E;
-      destruct (is_tuple x3 && is_tuple x4); [destruct keys; [|discriminate]|];
-      match goal with H : emit_gadget _ _ _ = Ok _ |- _ =>
-        destruct (emit_gadget_grows _ _ _ _ _ H) as (G & -> & L); split; [exact G | lia] end. }
+  { clear H. destruct (n_op nd); try discriminate.
+    all: try (eapply apply_op_grows; exact E).
+    all: try (destruct (emit_grows _ _ _ _ _ _ E) as (G & -> & L); split; [exact G | lia]).
+    all: repeat match type of E with bind _ _ = Ok _ => apply bind_ok in E; destruct E as (? & ? & E) end.
+    all: try (eapply apply_op_grows; exact E).
+    all: try match type of E with (if ?c then _ else _) = _ => destruct c; [destruct keys; [|discriminate]|] end.
+    all: match goal with H : emit_gadget _ _ _ = Ok _ |- _ =>
+           destruct (emit_gadget_grows _ _ _ _ _ H) as (G & -> & L); split; [exact G | lia] end. }
   destruct G1 as [G1 R1].
   destruct (mem i priv) eqn:Hp.
   - inv_bind H. destruct x as [out2 n2]. inv_bind H. inversion H; subst.
